@@ -754,9 +754,10 @@ func rawLocalName(st Struct) string {
 func runC12(c *Ctx, pr *PropertyRun) {
 	p := c.P
 	pr.Explanation = "Decided by decision tables (E2) extracted from every adapter method of caldav.backend and carddav.backend, with the hierarchy level produced by resourceTypeAtPath as an atom: (1) level -> backend operation: collection creation only at collection level and 403 elsewhere, carddav DELETE at address-book/object level and 403 elsewhere, PROPFIND per level as in C11, OPTIONS allow-lists, GET/HEAD/PUT reach the object operations; (2) path unchanged: the path handed to every backend operation is r.URL.Path itself (never a cleaned or trimmed string), the classifier alone receives it for classification; (3) foreign guard: PROPFIND at principal or home-set level emits nothing unless the request path equals the backend's own path; (4) every adapter literal gets strings.TrimSuffix(h.Prefix, \"/\") as its prefix; (5) the caldav and carddav tables are equal up to renaming, except the recorded DELETE difference (caldav.Backend has a single delete operation); (6) discovery flow: the backend's principal path, home set and collection paths reach the corresponding response hrefs and the client's return values (E1). " +
-		"NOT decided: the classification arithmetic itself (path.Clean, TrimPrefix, Split over all prefixes and spellings) — string values at run time; not applicable for that clause."
-	pr.Assumptions = append(pr.Assumptions, "resourceTypeAtPath classifies by depth below the prefix (its arithmetic is not decided)")
+		"(7) the classifier's shape: with path.Clean, strings.TrimPrefix and strings.Split as uninterpreted functions, the level is 0 for \"/\" and otherwise len(Split(P, \"/\"))-1 for P = the cleaned path with the prefix taken off and a leading slash ensured. NOT decided: what path.Clean, TrimPrefix and Split return on particular strings (all prefixes and spellings) — values at run time."
+	pr.Assumptions = append(pr.Assumptions, "path.Clean, strings.TrimPrefix and strings.Split behave as documented (they are uninterpreted in the classifier table)")
 	pr.Trusted = append(pr.Trusted, "golang.org/x/tools/go/ssa v0.29.0")
+	c12Classifier(c, pr)
 	davScopeTables(c, pr, "C12", false)
 	ops := NewRule("C12", "C12.level-ops", "level -> backend operation (or refusal) for every adapter method, with the request path unchanged (E2)")
 	ops.Exhaustive = true
